@@ -366,7 +366,7 @@ fn no_out() -> Json {
 pub fn replay(id: &str, hist: &[Json]) -> Json {
     match catch_unwind(AssertUnwindSafe(|| replay_inner(id, hist))) {
         Ok(j) => j,
-        Err(p) => json!({"id": id, "source": format!("namemap:{}", id), "outcome": format!("panic:{}", run::short(&run::panic_msg(p))), "events": []}),
+        Err(p) => json!({"id": id, "source": format!("namemap:{}", id), "outcome": format!("panic:{}", run::short(&run::panic_msg(p))), "first": hist[0], "events": []}),
     }
 }
 
@@ -406,8 +406,8 @@ fn replay_inner(id: &str, hist: &[Json]) -> Json {
     let src = format!("namemap:{}", id);
     let mut m = match catch_unwind(AssertUnwindSafe(|| mk().parse(&bytes))) {
         Ok(Ok(m)) => m,
-        Ok(Err(e)) => return json!({"id": id, "source": src, "outcome": format!("parse-err:{}", run::short(&format!("{:#}", e))), "in_valid": in_valid, "events": []}),
-        Err(p) => return json!({"id": id, "source": src, "outcome": format!("parse-panic:{}", run::short(&run::panic_msg(p))), "in_valid": in_valid, "events": []}),
+        Ok(Err(e)) => return json!({"id": id, "source": src, "outcome": format!("parse-err:{}", run::short(&format!("{:#}", e))), "in_valid": in_valid, "first": first, "events": []}),
+        Err(p) => return json!({"id": id, "source": src, "outcome": format!("parse-panic:{}", run::short(&run::panic_msg(p))), "in_valid": in_valid, "first": first, "events": []}),
     };
     let mut events = vec![json!({"op": "parse", "e": {"op": "parse", "on": on}, "outcome": "ok", "obs": observe(&m), "out": no_out()})];
     let mut last_out: Vec<u8> = vec![];
